@@ -1558,8 +1558,8 @@ def apply_injections(rng, desc, k, only=None, allowed=None):
             if td:
                 used.update(td.get("interfaces") or [])
                 used.update(x["name"] for x in d["types"] if t in (x.get("interfaces") or []))
-        if only is not None:
-            break
+        if only is not None or inj.name == "strict_default_with_own_resolvers":
+            break           # that edit fixes the resolvers of every field: nothing is added after it
     return d, labels, code_only or not sdl_ok
 
 
